@@ -299,3 +299,35 @@ def kwargs_chain(t):
 
     rec(t, [])
     return out
+
+
+def positive_term(den, pc, depth=0):
+    """Does the path condition prove ``den`` > 0 / non-zero?  Handles the same term being
+    tested, a floored denominator max(k, .) with k > 0, a non-zero literal, and the
+    if/else form where each arm established the fact for its own alternative."""
+    den = strip_numeric(den)
+    n = _num(den)
+    if n is not None:
+        return n != 0
+    if den.op == "call" and call_name(den) in ("builtins.max", "np.maximum", "np.max") and den.a[1]:
+        items = den.a[1]
+        if len(items) == 1 and items[0].op in ("list", "tuple"):
+            items = items[0].a
+        for x in items:
+            v = _num(x)
+            if v is not None and v > 0:
+                return True
+    pos = [strip_numeric(x) for x in positive_facts(pc)]
+    if any(x is den for x in pos):
+        return True
+    if den.op == "ite" and depth < 4:
+        c, a, b = den.a
+        for it in symeval.pc_either(pc):
+            if it[1] is c:
+                if positive_term(a, it[2], depth + 1) and positive_term(b, it[3], depth + 1):
+                    return True
+        # the enclosing branch condition itself decides which alternative is live
+        for cc, pol in symeval.pc_conds(pc):
+            if cc is c:
+                return positive_term(a if pol else b, pc, depth + 1)
+    return False
